@@ -10,6 +10,8 @@
 //!   recv <sync|relay> <hex>  -> pass <item id> | too-many-fields | malformed
 //! `pass` = the message went on to `process`; the other two are the bans issued by the gate itself
 //! (recognised by their reason text; bans issued later by a handler have other reasons).
+//!   peer <k>                 -> ok        the following messages come from the k-th peer of this case
+//!                                         (k = 0 is the peer the case starts with; a new peer is connected on first use)
 //!
 //! Oracle (implementation alone):
 //!   handler-panic     `received` panics
@@ -33,7 +35,7 @@ use std::collections::HashSet;
 use std::panic::{AssertUnwindSafe, catch_unwind};
 use std::sync::Arc;
 
-mod ctx {
+pub mod ctx {
     use ckb_network::{
         Behaviour, CKBProtocolContext, Error, Peer, PeerIndex, ProtocolId, TargetSession, async_trait, bytes::Bytes,
     };
@@ -208,6 +210,19 @@ pub struct World {
     relay_cursor: usize,
     /// stored blocks already found consistent (blocks are immutable once stored)
     checked_ok: HashSet<Byte32>,
+    /// the peers of the current case, in order of first use (`peer <k>`)
+    case_peers: Vec<PeerIndex>,
+}
+
+/// where the last panic happened (set by the panic hook of `run`)
+pub static LAST_PANIC_AT: std::sync::Mutex<String> = std::sync::Mutex::new(String::new());
+
+pub fn panic_hook() {
+    std::panic::set_hook(Box::new(|info| {
+        if let (Some(l), Ok(mut g)) = (info.location(), LAST_PANIC_AT.lock()) {
+            *g = format!("{}:{}", l.file(), l.line());
+        }
+    }));
 }
 
 fn sync_msg<T: Into<packed::SyncMessageUnion>>(x: T) -> Vec<u8> {
@@ -268,6 +283,7 @@ impl World {
             base_dir: base,
             relay_cursor: 0,
             checked_ok: HashSet::new(),
+            case_peers: vec![],
         };
         // leave IBD (`Relayer::received` ignores everything while in IBD)
         assert!(!w.shared.active_chain().is_initial_block_download(), "setup: still in IBD");
@@ -279,7 +295,24 @@ impl World {
         let _ = std::fs::remove_dir_all(&self.base_dir);
     }
 
+    /// a new case: a fresh peer, which is peer 0 of the case
     fn new_peer(&mut self) {
+        self.connect_peer();
+        self.case_peers = vec![self.peer];
+    }
+
+    /// `peer <k>`: the k-th peer of this case speaks next
+    fn switch_peer(&mut self, out: &mut Out, k: usize) {
+        assert!(k <= self.case_peers.len(), "peer {k}: peers are numbered in order of first use");
+        if k == self.case_peers.len() {
+            self.connect_peer();
+            self.case_peers.push(self.peer);
+        }
+        self.peer = self.case_peers[k];
+        out.op(&format!("peer {k}"), "ok");
+    }
+
+    fn connect_peer(&mut self) {
         self.peer = self.next_peer.into();
         self.next_peer += 1;
         self.sync_ctx.peers.lock().unwrap_or_else(|e| e.into_inner()).push(self.peer);
@@ -372,7 +405,8 @@ impl World {
             Ok(()) => gate,
             Err(e) => {
                 let msg = e.downcast_ref::<String>().cloned().or_else(|| e.downcast_ref::<&str>().map(|s| s.to_string())).unwrap_or_default();
-                out.oracle_fail("handler-panic", &format!("{}::received panics ({}) on {}", proto, msg, &hex(bytes)[..hex(bytes).len().min(400)]));
+                let at = LAST_PANIC_AT.lock().map(|g| g.clone()).unwrap_or_default();
+                out.oracle_fail("handler-panic", &format!("{}::received panics ({}) at {} on {}", proto, msg, at, &hex(bytes)[..hex(bytes).len().min(400)]));
                 "panic".to_string()
             }
         };
@@ -872,12 +906,15 @@ fn sc_sync_lists(w: &mut World, out: &mut Out, rng: &mut Rng, heavy: bool, force
         _ => {
             // byte-level mutations of a valid message
             let b1 = w.next_block(true, 1);
-            let base = match rng.below(3) {
+            // every sync message type as a base
+            let base = match rng.below(5) {
                 0 => World::headers_msg(&[b1.header()]),
                 1 => World::send_block_msg(&b1.data()),
-                _ => sync_msg(packed::GetBlocks::new_builder().block_hashes(packed::Byte32Vec::new_builder().set(vec![b1.hash()]).build()).build()),
+                2 => sync_msg(packed::GetBlocks::new_builder().block_hashes(packed::Byte32Vec::new_builder().set(vec![b1.hash()]).build()).build()),
+                3 => sync_msg(packed::GetHeaders::new_builder().block_locator_hashes(packed::Byte32Vec::new_builder().set(vec![tiph.hash(), w.node.consensus.genesis_hash()]).build()).hash_stop(Byte32::zero()).build()),
+                _ => sync_msg(packed::InIBD::new_builder().build()),
             };
-            for _ in 0..4 {
+            for _ in 0..6 {
                 let m = mutate(rng, &base);
                 w.recv(out, "sync", &m);
             }
@@ -990,12 +1027,20 @@ fn sc_relay_lists(w: &mut World, out: &mut Out, rng: &mut Rng, heavy: bool, forc
         }
         _ => {
             let b1 = w.next_block(true, 1);
-            let base = match rng.below(3) {
+            // every relay message type as a base
+            let f = w.foreign_tx();
+            let h1 = Byte32::from_slice(&[0x31u8; 32]).unwrap();
+            let base = match rng.below(8) {
                 0 => relay_msg(packed::CompactBlock::build_from_block(&b1, &HashSet::new())),
-                1 => relay_msg(packed::GetBlockTransactions::new_builder().block_hash(b1.hash()).indexes(u32s(&[1, 2])).build()),
-                _ => relay_msg(packed::BlockTransactions::new_builder().block_hash(b1.hash()).transactions(packed::TransactionVec::new_builder().set(vec![b1.transactions()[0].data()]).build()).build()),
+                1 => relay_msg(packed::GetBlockTransactions::new_builder().block_hash(b1.hash()).indexes(u32s(&[1, 2])).uncle_indexes(u32s(&[0])).build()),
+                2 => relay_msg(packed::BlockTransactions::new_builder().block_hash(b1.hash()).transactions(packed::TransactionVec::new_builder().set(vec![b1.transactions()[0].data()]).build()).uncles(packed::UncleBlockVec::new_builder().set(vec![packed::UncleBlock::new_builder().header(b1.data().header()).build()]).build()).build()),
+                3 => relay_msg(packed::RelayTransactions::new_builder().transactions(packed::RelayTransactionVec::new_builder().set(vec![packed::RelayTransaction::new_builder().cycles(7u64).transaction(f.data()).build()]).build()).build()),
+                4 => relay_msg(packed::RelayTransactionHashes::new_builder().tx_hashes(packed::Byte32Vec::new_builder().set(vec![h1.clone(), f.hash()]).build()).build()),
+                5 => relay_msg(packed::GetRelayTransactions::new_builder().tx_hashes(packed::Byte32Vec::new_builder().set(vec![h1.clone()]).build()).build()),
+                6 => relay_msg(packed::GetBlockProposal::new_builder().block_hash(tiph.hash()).proposals(packed::ProposalShortIdVec::new_builder().set(vec![f.proposal_short_id()]).build()).build()),
+                _ => relay_msg(packed::BlockProposal::new_builder().transactions(packed::TransactionVec::new_builder().set(vec![f.data()]).build()).build()),
             };
-            for _ in 0..4 {
+            for _ in 0..6 {
                 let m = mutate(rng, &base);
                 w.recv(out, "relay", &m);
             }
@@ -1006,8 +1051,227 @@ fn sc_relay_lists(w: &mut World, out: &mut Out, rng: &mut Rng, heavy: bool, forc
     out.nontrivial(label);
 }
 
+/// One peer's compact variant of a block: which positions it prefills, how its short-id and uncle lists
+/// deviate from the block, and the body it has in mind (what it answers a GetBlockTransactions with).
+struct Variant {
+    cb: packed::CompactBlock,
+    /// the transaction this peer would send for block position `i`
+    layout: Vec<TransactionView>,
+    /// the uncle this peer would send for uncle index `i`
+    uncle_blocks: Vec<packed::UncleBlock>,
+}
+
+/// Several peers announce the SAME header with different compact blocks, then answer the
+/// GetBlockTransactions they were sent — faithfully (relative to their own variant) or not.  The block has
+/// 0..=3 non-cellbase transactions the node does not know and 0..=2 real uncles (siblings of the tip), some
+/// of which the node may already have stored.  `forced`: 0 = one peer, one unknown uncle, answered with no
+/// uncle at all; 1 = a first peer with a shorter variant, then an honest peer with the full one.
+fn sc_pending(w: &mut World, out: &mut Out, rng: &mut Rng, forced: Option<u64>) {
+    let tip0 = w.tip();
+    let label = match forced {
+        Some(v) => format!("pending-f{v}"),
+        None => "pending".to_string(),
+    };
+    out.begin_case(&label);
+    let (n_tx, n_uncles, n_peers): (usize, usize, usize) = match forced {
+        Some(0) => (0, 1, 1),
+        Some(1) => (2, 0, 2),
+        Some(2) => (1, 2, 1),
+        Some(3) => (2, 1, 3),
+        _ => (rng.below(4) as usize, *rng.pick(&[0usize, 0, 1, 2, 2]), *rng.pick(&[1usize, 2, 2, 3])),
+    };
+    // real uncles: siblings of the tip
+    let tiph = w.node.tip();
+    let mut uncle_views: Vec<BlockView> = vec![];
+    for _ in 0..n_uncles {
+        w.salt += 1;
+        let u = w.builder.build(&tiph.parent_hash(), &BlockSpec { salt: 500_000 + w.salt, ..Default::default() });
+        uncle_views.push(u);
+    }
+    w.salt += 1;
+    let b0 = w.builder.build(&tip0, &BlockSpec { salt: w.salt, uncles: uncle_views.iter().map(|u| u.as_uncle()).collect(), ..Default::default() });
+    // the body: cellbase + foreign transactions under a header that commits to them (valid for the relay layer;
+    // the chain rejects it later unless n_tx == 0)
+    let foreign: Vec<TransactionView> = (0..n_tx).map(|_| w.foreign_tx()).collect();
+    let b: BlockView = if n_tx == 0 { b0.clone() } else { b0.as_advanced_builder().transactions(foreign.clone()).build() };
+    let txs: Vec<TransactionView> = b.transactions();
+    w.sent_headers.insert(b.hash());
+    // some uncles are already known to the node (stored side blocks): reconstruct_block takes them from the store
+    let mut stored_uncle = vec![false; n_uncles];
+    if forced.is_none() {
+        for (i, u) in uncle_views.iter().enumerate() {
+            if rng.chance(1, 3) {
+                let _ = w.node.process(u);
+                stored_uncle[i] = true;
+                out.count("pending-uncle-stored");
+            }
+        }
+    }
+    let uncle_hashes: Vec<Byte32> = uncle_views.iter().map(|u| u.hash()).collect();
+    let proposals: Vec<packed::ProposalShortId> = b.data().proposals().into_iter().collect();
+    // the variants
+    let mut variants: Vec<Variant> = vec![];
+    for p in 0..n_peers {
+        let honest = match forced {
+            Some(1) => p == 1,
+            Some(_) => true,
+            None => rng.chance(1, 2),
+        };
+        let mut prefilled_pos: Vec<usize> = vec![0];
+        for i in 1..txs.len() {
+            if rng.chance(1, 4) && forced.is_none() {
+                prefilled_pos.push(i);
+            }
+        }
+        let mut layout: Vec<TransactionView> = txs.clone();
+        let mut sids: Vec<packed::ProposalShortId> = (0..txs.len()).filter(|i| !prefilled_pos.contains(i)).map(|i| txs[i].proposal_short_id()).collect();
+        let mut uncles = uncle_hashes.clone();
+        let mut uncle_blocks: Vec<packed::UncleBlock> = uncle_views.iter().map(|u| u.as_uncle().data()).collect();
+        if !honest {
+            let how = if forced == Some(1) { 0 } else { rng.below(6) };
+            match how {
+                // a shorter short-id list ending in a transaction nobody has (only the cellbase prefilled)
+                0 => {
+                    let keep = if forced == Some(1) { 0 } else { rng.below(txs.len() as u64) as usize };
+                    let f = w.foreign_tx();
+                    prefilled_pos = vec![0];
+                    sids = txs[1..1 + keep].iter().map(|t| t.proposal_short_id()).collect();
+                    sids.push(f.proposal_short_id());
+                    layout = txs[..1 + keep].to_vec();
+                    layout.push(f);
+                }
+                // a longer list: extra unknown transactions at the end
+                1 => {
+                    for _ in 0..rng.range(1, 3) {
+                        let f = w.foreign_tx();
+                        sids.push(f.proposal_short_id());
+                        layout.push(f);
+                    }
+                }
+                // fewer uncles
+                2 if !uncles.is_empty() => {
+                    uncles.pop();
+                    uncle_blocks.pop();
+                }
+                // one more / other uncles (nobody knows them)
+                3 if uncles.len() < 2 => {
+                    let h = b0.header();
+                    uncles.push(h.hash());
+                    uncle_blocks.push(packed::UncleBlock::new_builder().header(h.data()).build());
+                }
+                4 if !uncles.is_empty() => {
+                    uncles.reverse();
+                    uncle_blocks.reverse();
+                }
+                // one short id replaced by a foreign one (same length)
+                _ if !sids.is_empty() => {
+                    let j = rng.below(sids.len() as u64) as usize;
+                    let f = w.foreign_tx();
+                    sids[j] = f.proposal_short_id();
+                    let pos = (0..txs.len()).filter(|i| !prefilled_pos.contains(i)).nth(j).unwrap();
+                    layout[pos] = f;
+                }
+                _ => {}
+            }
+        }
+        prefilled_pos.sort();
+        let pre: Vec<packed::IndexTransaction> = prefilled_pos.iter().map(|i| index_tx(*i as u32, &layout[*i])).collect();
+        let cb = compact(&b, pre, sids, uncles, proposals.clone());
+        variants.push(Variant { cb, layout, uncle_blocks });
+    }
+    // announcements
+    let mut asked: Vec<Option<(Vec<u32>, Vec<u32>)>> = vec![None; n_peers];
+    for p in 0..n_peers {
+        if p > 0 {
+            w.switch_peer(out, p);
+        }
+        let mut replies = w.recv(out, "relay", &relay_msg(variants[p].cb.clone()));
+        replies.extend(w.late_relay_replies(out, 300));
+        for r in replies {
+            if let Ok(m) = packed::RelayMessageReader::from_slice(&r) {
+                if let packed::RelayMessageUnionReader::GetBlockTransactions(g) = m.to_enum() {
+                    out.count("asked-GetBlockTransactions");
+                    let idx: Vec<u32> = g.indexes().iter().map(|i| Into::<u32>::into(i)).collect();
+                    let uidx: Vec<u32> = g.uncle_indexes().iter().map(|i| Into::<u32>::into(i)).collect();
+                    if !uidx.is_empty() {
+                        out.count("asked-uncle-indexes");
+                    }
+                    asked[p] = Some((idx, uidx));
+                }
+            }
+        }
+    }
+    // answers, in any order
+    let mut order: Vec<usize> = (0..n_peers).collect();
+    if forced.is_none() {
+        rng.shuffle(&mut order);
+    }
+    let mut any_faithful = false;
+    for p in order {
+        let Some((idx, uidx)) = asked[p].clone() else { continue };
+        if n_peers > 1 {
+            w.switch_peer(out, p);
+        }
+        let v = &variants[p];
+        let mut answer_txs: Vec<packed::Transaction> = idx.iter().filter_map(|i| v.layout.get(*i as usize).map(|t| t.data())).collect();
+        let mut answer_uncles: Vec<packed::UncleBlock> = uidx.iter().filter_map(|i| v.uncle_blocks.get(*i as usize).cloned()).collect();
+        let tamper = match forced {
+            Some(0) => 1,
+            Some(2) => 2,
+            Some(_) => 0,
+            None => rng.below(12),
+        };
+        match tamper {
+            // no uncle at all / one uncle fewer / one more / swapped / a wrong one
+            1 if !answer_uncles.is_empty() => answer_uncles.clear(),
+            2 if !answer_uncles.is_empty() => {
+                answer_uncles.pop();
+            }
+            3 => answer_uncles.push(packed::UncleBlock::new_builder().header(b0.data().header()).build()),
+            4 if answer_uncles.len() >= 2 => answer_uncles.swap(0, 1),
+            5 if !answer_uncles.is_empty() => answer_uncles[0] = packed::UncleBlock::new_builder().header(b0.data().header()).build(),
+            // transactions: one fewer / one more / swapped
+            6 if !answer_txs.is_empty() => {
+                answer_txs.pop();
+            }
+            7 => answer_txs.push(w.foreign_tx().data()),
+            8 if answer_txs.len() >= 2 => answer_txs.swap(0, 1),
+            _ => any_faithful = true,
+        }
+        let bt = packed::BlockTransactions::new_builder()
+            .block_hash(b.hash())
+            .transactions(packed::TransactionVec::new_builder().set(answer_txs).build())
+            .uncles(packed::UncleBlockVec::new_builder().set(answer_uncles).build())
+            .build();
+        let again = w.recv(out, "relay", &relay_msg(bt));
+        // a second request (fresh transactions / collision): answered once more, faithfully
+        for r in again {
+            if let Ok(m) = packed::RelayMessageReader::from_slice(&r) {
+                if let packed::RelayMessageUnionReader::GetBlockTransactions(g) = m.to_enum() {
+                    out.count("asked-GetBlockTransactions-again");
+                    let idx: Vec<u32> = g.indexes().iter().map(|i| Into::<u32>::into(i)).collect();
+                    let uidx: Vec<u32> = g.uncle_indexes().iter().map(|i| Into::<u32>::into(i)).collect();
+                    let bt = packed::BlockTransactions::new_builder()
+                        .block_hash(b.hash())
+                        .transactions(packed::TransactionVec::new_builder().set(idx.iter().filter_map(|i| v.layout.get(*i as usize).map(|t| t.data())).collect()).build())
+                        .uncles(packed::UncleBlockVec::new_builder().set(uidx.iter().filter_map(|i| v.uncle_blocks.get(*i as usize).cloned()).collect()).build())
+                        .build();
+                    w.recv(out, "relay", &relay_msg(bt));
+                }
+            }
+        }
+    }
+    let may_accept = n_tx == 0 && any_faithful;
+    w.settle(&b.hash(), if may_accept { 3000 } else { 60 });
+    if w.tip() == b.hash() {
+        out.count("pending-block-accepted");
+    }
+    w.check_store(out, &tip0, &label);
+    out.nontrivial(format!("{label}-{n_tx}-{n_uncles}-{n_peers}-{}", w.tip() == b.hash()));
+}
+
 pub fn run(opts: &Opts, mut out: Out) {
-    std::panic::set_hook(Box::new(|_| {}));
+    panic_hook();
     // never dropped: dropping the node joins the chain-service threads (a panic of this driver must end the
     // process, not hang it)
     let mut w = std::mem::ManuallyDrop::new(World::new(&opts.out));
@@ -1034,6 +1298,10 @@ pub fn run(opts: &Opts, mut out: Out) {
                     }
                     w.check_store(&mut out, &tip0, "replay");
                 }
+                "peer" => {
+                    let k: usize = ts[1].parse().expect("peer number");
+                    w.switch_peer(&mut out, k);
+                }
                 other => panic!("C16 recv replay: unknown op {other}"),
             }
         }
@@ -1042,7 +1310,14 @@ pub fn run(opts: &Opts, mut out: Out) {
         std::process::exit(0);
     }
     let mut rng = Rng::new(opts.seed ^ 0x5ec16);
-    let n = if opts.thorough() { 1500 } else { 90 } * opts.scale;
+    if let Some(k) = opts.extra.iter().find_map(|a| a.strip_prefix("only-pending=")) {
+        // (for writing corpus files) one forced multi-peer scenario on the fresh world
+        sc_pending(&mut w, &mut out, &mut rng, Some(k.parse().expect("variant")));
+        out.finish("recv: one forced scenario");
+        w.cleanup();
+        std::process::exit(0);
+    }
+    let n = if opts.thorough() { 1500 } else { 130 } * opts.scale;
     for i in 0..n {
         w.new_peer();
         // every variant of every scenario once, in a fixed order, then at random
@@ -1054,13 +1329,16 @@ pub fn run(opts: &Opts, mut out: Out) {
             sc_sync_lists(&mut w, &mut out, &mut rng, true, Some(i - 24));
         } else if i < 41 {
             sc_relay_lists(&mut w, &mut out, &mut rng, true, Some(i - 33));
+        } else if i < 45 {
+            sc_pending(&mut w, &mut out, &mut rng, Some(i - 41));
         } else {
             let heavy = i % 40 == 7;
-            match rng.below(10) {
-                0..=3 => sc_compact_block(&mut w, &mut out, &mut rng, None),
-                4 | 5 => sc_send_block(&mut w, &mut out, &mut rng, None),
-                6 | 7 => sc_sync_lists(&mut w, &mut out, &mut rng, heavy, None),
-                _ => sc_relay_lists(&mut w, &mut out, &mut rng, heavy, None),
+            match rng.below(13) {
+                0..=2 => sc_compact_block(&mut w, &mut out, &mut rng, None),
+                3 | 4 => sc_send_block(&mut w, &mut out, &mut rng, None),
+                5 | 6 => sc_sync_lists(&mut w, &mut out, &mut rng, heavy, None),
+                7 | 8 => sc_relay_lists(&mut w, &mut out, &mut rng, heavy, None),
+                _ => sc_pending(&mut w, &mut out, &mut rng, None),
             }
         }
     }
